@@ -39,6 +39,11 @@ def check(run, prog):
     r1(ck, prog, run)
     r2_small(ck, prog, run)
     r2_labels(ck, prog, run)
+    # the FFT routines work on (views of) the caller's data: they must never be given permission to overwrite their operand
+    from ..structural import overwrite_report
+    overwrite_report(ck, prog, "R1")
+    from ..structural import hooks_report
+    hooks_report(ck, prog, "R1")
     run.extra["decided_by"] = ck.how
 
 
@@ -262,11 +267,12 @@ def r2_labels(ck, prog, run):
     k = sp.Symbol("k", integer=True, nonnegative=True)
     aligns = ("bottom", "center", "top")
     for parity, P in (("even", 2 * q), ("odd", 2 * q + 1)):
-        for nchan, al in ((2, "bottom"), (2, "top"), (2, "center"), (3, "center"), (1, "center")):
+        for nchan, al, cname in ((2, "bottom", "BasebandSignal"), (2, "top", "BasebandSignal"), (2, "center", "BasebandSignal"), (3, "center", "BasebandSignal"),
+                                 (1, "center", "BasebandSignal"), (2, "bottom", "DualPolarizationSignal"), (2, "top", "DualPolarizationSignal")):
             if run.tier == "quick" and (nchan, al) in ((2, "center"), (1, "center")):
                 continue
-            tag = f"[nperseg {parity}, nchan={nchan}, '{al}']"
-            z = make_signal(prog, "BasebandSignal", n=sp.Symbol("M", integer=True, positive=True) * P, nchan=nchan, freq_align=al)
+            tag = f"[nperseg {parity}, nchan={nchan}, '{al}'{'' if cname == 'BasebandSignal' else ', ' + cname}]"
+            z = make_signal(prog, cname, n=sp.Symbol("M", integer=True, positive=True) * P, nchan=nchan, freq_align=al)
             ev = ck.evaluator()
             s = ck.attempt("R2", f_st.where, "stft(z, nperseg) labels " + tag, "evaluates", lambda: ev.call(f_st, [z], {"nperseg": Num(P)}), ev=ev,
                            allowed_guards=[])
